@@ -16,7 +16,21 @@ def main():
     ap.add_argument("--replay")
     a = ap.parse_args()
     seed = int(os.environ.get("VERIF_SEED", "20260926"))
-    mod = importlib.import_module("harness.props." + a.prop.lower())
+    try:
+        mod = importlib.import_module("harness.props." + a.prop.lower())
+    except common.Infra:
+        raise
+    except Exception as e:  # noqa: BLE001
+        # the tree under verification (or the harness importing it) cannot even be
+        # imported: nothing about the property is shown to hold any more
+        import traceback
+
+        tb = traceback.format_exc()
+        if "/verif/harness" in tb.splitlines()[-3] if len(tb.splitlines()) > 3 else False:
+            raise
+        path = common.write_replay(a.prop, dict(property=a.prop, case=None, broken=["import of the tree under verification failed: " + repr(e)], traceback=tb[-3000:]))
+        print(f"VIOLATION property={a.prop} replay={path} no-failing-input-found")
+        sys.exit(1)
     pc = mod.CHECK
     try:
         if a.replay:
